@@ -251,7 +251,16 @@ impl PivotFinder {
         let report = self.should_report();
         let row_counter = SyncCounter::new();
 
+        #[cfg(yui_verif)]
+        crate::verif::emit(crate::verif::Event::Init { 
+            pivots: pivots.read().unwrap().iter().collect(), 
+            remain_rows: remain_rows.clone() 
+        });
+
         remain_rows.par_iter().for_each(|&i| { 
+            #[cfg(yui_verif)]
+            crate::verif::emit(crate::verif::Event::GateTaskStart { row: i });
+
             let mut loc_pivots = init_tls(&loc_pivots_tls, || 
                 pivots.read().unwrap().clone()
             ).borrow_mut();
@@ -261,6 +270,10 @@ impl PivotFinder {
             ).borrow_mut();
 
             loc_pivots.update_from(&pivots.read().unwrap());
+
+            #[cfg(yui_verif)]
+            crate::verif::emit(crate::verif::Event::Started { row: i, seen: loc_pivots.count() });
+
             w.init(i, &self.str, &loc_pivots);
 
             self.find_cycle_free_pivots_in(&pivots, &mut loc_pivots, &mut w);
@@ -283,20 +296,34 @@ impl PivotFinder {
             w.traverse(&self.str, loc_pivots);
     
             let Some(j) = w.choose_candidate(&self.str) else {
+                #[cfg(yui_verif)]
+                crate::verif::emit(crate::verif::Event::NoCand { row: w.row });
+
                 break
             };
             
             // If changes are made in other threads, update `loc_pivots` and retry.
             // Otherwise, modify `pivots` and exit.
+
+            #[cfg(yui_verif)]
+            crate::verif::emit(crate::verif::Event::GateBeforeLock { row: w.row, cand: j });
         
             let mut pivots = pivots.write().unwrap();
             w.update_diff(&loc_pivots, &pivots);
             
             if w.should_retry() { 
                 loc_pivots.update_from(&pivots);
+
+                #[cfg(yui_verif)]
+                crate::verif::emit(crate::verif::Event::Retry { row: w.row, seen: loc_pivots.count() });
+
                 continue
             } else { 
                 pivots.set(w.row, j);
+
+                #[cfg(yui_verif)]
+                crate::verif::emit(crate::verif::Event::Commit { row: w.row, col: j, index: pivots.count() });
+
                 break
             }    
         }
